@@ -152,9 +152,11 @@ def gen_many_scn_c14d(rng, sid, n=None):
         sc.topics[1000 + u] = dict(kind="me", owner=u)
     sc.sessions[1] = dict(user=1)
     sc.sessions[2] = dict(user=2)          # the session whose writer stalls
-    third = rng.random() < 0.6
+    mode = rng.random()
+    evict = mode >= 0.75       # the user's OTHER session unsubscribes from every topic: evictUser detaches the stalled one
+    third = evict or rng.random() < 0.6
     if third:
-        sc.sessions[3] = dict(user=rng.choice(sc.users[1:]))
+        sc.sessions[3] = dict(user=2 if evict else rng.choice(sc.users[1:]))
     rid = [0]
 
     def nr():
@@ -166,15 +168,20 @@ def gen_many_scn_c14d(rng, sid, n=None):
     sc.bursts.append(["q 2 %s sub %d" % (nr(), k) for k in ks])
     lines = ["q 1 %s sub %d" % (nr(), k) for k in ks if rng.random() < 0.3]
     if third:
-        lines += ["q 3 %s sub %d" % (nr(), k) for k in ks if rng.random() < 0.4]
+        lines += ["q 3 %s sub %d" % (nr(), k) for k in ks if evict or rng.random() < 0.4]
     rng.shuffle(lines)
     if lines:
         sc.bursts.append(lines)
-    mode = rng.random()
-    if mode < 0.4:
+    if evict:
+        # {leave unsub} (now and then {del topic}, which for a non-owner is the same unsubscription routed through the hub)
+        # by session 3 on every topic: Topic.evictUser sends every OTHER session of the user a detach notice
+        order = list(ks)
+        rng.shuffle(order)
+        sc.bursts.append(["i stall 2"] + [("q 3 %s leave %d 1" if rng.random() < 0.8 else "q 3 %s deltopic %d 0") % (nr(), k) for k in order])
+    elif mode < 0.3:
         # the owner's account is deleted: Hub.stopTopicsForUser terminates all his topics at once
         sc.bursts.append(["i stall 2", "q 1 %s deluser" % nr()])
-    elif mode < 0.8:
+    elif mode < 0.6:
         # all topics deleted at once by the owner
         order = list(ks)
         rng.shuffle(order)
